@@ -186,7 +186,7 @@ def r06_6(ctx: Ctx):
                       key=f'{rid}::{fcall.func.short}::ends')
     ctx.floor(rid, 'evaluations on paths of the iteration driver', n, 2)
     # nobody else inserts
-    allowed = {roles.fq(roles.seeding), roles.fq(roles.renewal)}
+    allowed = roles.dominated_closure({roles.fq(roles.seeding), roles.fq(roles.renewal)})
     sdc = ctx.ix.cls('SearchData')
     for f in ins + insf:
         for c in roles.callers_of(f):
@@ -212,6 +212,7 @@ def r06_8(ctx: Ctx):
             if nm in c.methods:
                 ins_ok.add(roles.fq(c.methods[nm]))
     setters = {roles.fq(item.lookup(n)): n for n in ('SetLeft', 'SetRight') if item.lookup(n)}
+    ins_ok = roles.dominated_closure(ins_ok)
     # link fields: direct stores only in the setters; setters called only from the insert routines
     n = 0
     for m in roles.mutations():
@@ -265,6 +266,7 @@ def r06_8(ctx: Ctx):
                     parts.add(h)
     pcs = {roles.fq(p) for p in roles.problem_calcs}
     allowed = {roles.fq(er), roles.fq(tw)} | pcs | {roles.fq(item.lookup(n)) for n in ('SetZ', 'SetIndex')}
+    allowed = roles.dominated_closure(allowed)
     fields = {'point', 'floatVariables', 'value', 'functionValues', '_SearchDataItem__z', '_SearchDataItem__index'}
     nw = 0
     for m in roles.mutations():
@@ -285,7 +287,8 @@ def r06_8(ctx: Ctx):
                   f'stored-item field written on the evaluation path: {m.text()[:50]}',
                   f'{m.func.short} writes into an item that is stored in the search data ({m.text()}): its point/'
                   f'value no longer is the image/objective of its coordinate',
-                  key=f'{rid}::{m.func.module.relpath}::{m.func.short}::{C.norm_stmt(m.node)}')
+                  key=f'{rid}::{m.func.module.relpath}::{m.func.short}::writes-stored-item::'
+                      f'{m.field if isinstance(m.field, str) else "[]"}')
     ctx.floor(rid, 'write sites touching stored items', nw, 3)
 
 
